@@ -92,7 +92,8 @@ def pp(n, extra_parens=None):
     """source text with minimal parentheses; extra_parens(rnd) may add redundant groups (never changes meaning)"""
     def child(c, need):
         s = pp(c, extra_parens)
-        if need or (extra_parens is not None and c.kind not in ('seq',) and extra_parens.random() < 0.08):
+        is_property = c.kind == 'lit' and c.a[1][:1].isalpha()      # `a . name`: the name is not an operand expression
+        if need or (extra_parens is not None and c.kind not in ('seq',) and not is_property and extra_parens.random() < 0.08):
             return wrap(s)
         return s
     k = n.kind
